@@ -154,6 +154,31 @@ let () =
             Buffer.add_char buf '\t';
             Buffer.add_string buf (hex (formatRoots roots))
           with Bad m -> Buffer.add_string buf ("BADDUMP " ^ m))
+       | "stream" ->
+         (* param: caps=3.0.1;eager=1;fault=17:E1  (same syntax as the Go harness) *)
+         let input = unhex f0 in
+         let caps = ref [] and eager = ref false and final = ref 1 and k = ref (List.length input) in
+         List.iter (fun kv ->
+             match String.index_opt kv '=' with
+             | None -> ()
+             | Some i ->
+               let key = String.sub kv 0 i and v = String.sub kv (i+1) (String.length kv - i - 1) in
+               if key = "caps" then caps := List.filter_map (fun x -> if x = "" then None else Some (z_of_int (int_of_string x))) (String.split_on_char '.' v)
+               else if key = "eager" then eager := (v = "1")
+               else if key = "fault" then begin
+                 (match String.split_on_char ':' v with
+                  | n :: rest -> k := min !k (int_of_string n); final := (match rest with "E2" :: _ -> 3 | _ -> 2)
+                  | [] -> ()) end)
+           (String.split_on_char ';' param);
+         let delivered = List.filteri (fun i _ -> i < !k) input in
+         let ((((roots, err), extra), log), code) = parseStream !caps !eager (z_of_int !final) delivered in
+         let ename e = (match zi e with 0 -> "nil" | 1 -> "EOF" | 2 -> "E1" | 3 -> "E2" | 4 -> "too-large" | -1 -> "block" | _ -> "?") in
+         dump_roots buf roots; dump_refs buf roots;
+         Buffer.add_string buf ("\tE:" ^ ename err);
+         Buffer.add_string buf ("\tX:" ^ String.concat "," (List.map ename extra));
+         Buffer.add_string buf ("\tL:" ^ String.concat "," (List.map (fun ((c, n), e) ->
+             Printf.sprintf "%d/%d/%s" (zi c) (zi n) (if zi e = 0 then "-" else ename e)) log));
+         if zi code <> 0 then Buffer.add_string buf (Printf.sprintf " CODE%d" (zi code))
        | "leafok" ->
          (* C07: the leaf hypothesis of C07_render_safeW, evaluated on the implementation's tree *)
          (try
